@@ -28,6 +28,12 @@ for id in $IDS; do
     OUT=$(VERIF_ROOT=$S/root VERIF_WORKERS=$W $S/target/plain/itree-sim check --prop "$id" --tier quick --runs-div 5 --merge-evidence 2>&1); RC=$?
     [ $RC = 1 ] && OUT="(plain build) $OUT"
   fi
+  if [ $RC = 0 ] && [ "$id" = C10 ]; then
+    # C10 only: a fortieth of the runs on an unoptimised build
+    ( cd $S/sim && CARGO_NET_OFFLINE=true cargo build --offline >> $S/build.log 2>&1 )
+    OUT=$(ITREE_SIM_PROFILE=dev VERIF_ROOT=$S/root VERIF_WORKERS=$W $S/target/debug/itree-sim check --prop "$id" --tier quick --runs-div 40 --merge-evidence 2>&1); RC=$?
+    [ $RC = 1 ] && OUT="(dev build) $OUT"
+  fi
   if [ $RC = 1 ]; then CAUGHT="$CAUGHT $id"; echo "$OUT" | grep -A1 "^VIOLATION" | head -4 | cut -c1-300;
   elif [ $RC != 0 ]; then echo "$id: harness exit $RC"; echo "$OUT" | tail -3 | cut -c1-300; fi
 done
